@@ -287,11 +287,13 @@ impl Prop for C07Prop {
                             fail("C07.buffer-encoder-format", format!("encode::<Vec> (armed, not fired): {}", first_diff(f, &want)), &mut violation);
                         }
                     }
-                    (Ok(f), true) => fail(
-                        "C07.alloc-failure-ignored",
-                        format!("allocation request {} failed but encode::<Vec> returned Ok({} bytes)", l.alloc_fail, f.len()),
-                        &mut violation,
-                    ),
+                    // an implementation may recover from a failed reservation (e.g. retry with a smaller
+                    // one); then the frame must still be the right one
+                    (Ok(f), true) => {
+                        if *f != want {
+                            fail("C07.buffer-encoder-format", format!("encode::<Vec> (after a failed allocation): {}", first_diff(f, &want)), &mut violation);
+                        }
+                    }
                     (Err(_), false) => fail("C07.buffer-encoder-oom-without-fault", "encode::<Vec> returned OutOfMemory although no allocation failed".into(), &mut violation),
                 }
                 obs.push(Obs {
